@@ -1,0 +1,97 @@
+//! Verification probes (cargo feature `verif_hooks`, off by default).
+//!
+//! Add-only instrumentation used by an external verification harness: a
+//! thread-local event sink that the VM feeds at the entry and the normal exit
+//! of every evaluation of an instruction stream and before every instruction.
+//! Nothing here changes the behavior of the engine; with the feature disabled
+//! none of this code is compiled.
+use std::cell::RefCell;
+
+/// One probe event.
+#[derive(Debug, Clone, PartialEq, Eq)]
+pub enum Event {
+    /// An evaluation of an instruction stream begins.
+    Enter {
+        /// Address of the `Instructions` object being evaluated.
+        stream: usize,
+        /// First program counter.
+        pc: u32,
+        /// Operand stack height at entry (macro arguments).
+        operands: usize,
+        /// Number of context frames.
+        frames: usize,
+        /// Output capture depth.
+        captures: usize,
+        /// Whether auto escaping is enabled (not `AutoEscape::None`).
+        auto_escape: bool,
+    },
+    /// An instruction is about to execute.
+    Instr {
+        /// Address of the `Instructions` object being evaluated.
+        stream: usize,
+        /// Program counter.
+        pc: u32,
+        /// Operand stack height.
+        operands: usize,
+        /// For every context frame: is it a loop frame?
+        frame_is_loop: Vec<bool>,
+        /// Output capture depth.
+        captures: usize,
+        /// Depth of the evaluation-local auto-escape stack.
+        auto_escape_depth: usize,
+        /// Fuel this instruction is charged.
+        fuel: u64,
+    },
+    /// An evaluation ended normally (stream exhausted or `Return`).
+    Exit {
+        /// Address of the `Instructions` object being evaluated at exit.
+        stream: usize,
+        /// Operand stack height at exit.
+        operands: usize,
+        /// Number of context frames.
+        frames: usize,
+        /// Output capture depth.
+        captures: usize,
+        /// Whether auto escaping is enabled.
+        auto_escape: bool,
+        /// Depth of the evaluation-local auto-escape stack.
+        auto_escape_depth: usize,
+    },
+}
+
+thread_local! {
+    static SINK: RefCell<Option<Vec<Event>>> = const { RefCell::new(None) };
+}
+
+/// Starts recording events on this thread (discarding earlier ones).
+pub fn start_recording() {
+    SINK.with(|s| *s.borrow_mut() = Some(Vec::new()));
+}
+
+/// Stops recording and returns the recorded events.
+pub fn take_events() -> Vec<Event> {
+    SINK.with(|s| s.borrow_mut().take().unwrap_or_default())
+}
+
+/// Is a recording active on this thread?
+#[inline]
+pub fn recording() -> bool {
+    SINK.with(|s| s.borrow().is_some())
+}
+
+/// Records an event when a recording is active.
+#[inline]
+pub fn emit(make: impl FnOnce() -> Event) {
+    SINK.with(|s| {
+        if let Some(events) = s.borrow_mut().as_mut() {
+            events.push(make());
+        }
+    });
+}
+
+/// Number of values currently parked in the thread-local value handle
+/// registry used for round-tripping values through serde.
+#[cfg(feature = "serde")]
+pub fn value_handles_len() -> usize {
+    crate::value::verif_value_handles_len()
+}
